@@ -466,6 +466,96 @@ func TestMembershipAfterMutation(t *testing.T) {
 	evid.Exhaustive("list size x path of the write x element kind: in before and after", n)
 }
 
+// TestExpressionPositions: an operator expression means the same wherever it is evaluated: as the source of an
+// assignment, as the condition of an if / elif / for, in parentheses, as an argument, a list element, an index key.
+// Operand pairs: non-bool operands of && and ||, integers beyond 2^53 that differ by one, mixed int / float at the
+// precision boundary, nil, strings.
+func TestExpressionPositions(t *testing.T) {
+	big := int64(9007199254740992)
+	exprs := []func() *gen.Node{
+		func() *gen.Node { return gen.NBin("&&", gen.NInt(1), gen.NBool(true)) },
+		func() *gen.Node { return gen.NBin("&&", id("n"), id("ok")) },
+		func() *gen.Node { return gen.NBin("||", gen.NStr("s"), gen.NBool(false)) },
+		func() *gen.Node { return gen.NBin("||", gen.NNil(), gen.NBool(true)) },
+		func() *gen.Node { return gen.NBin("&&", gen.NInt(0), gen.NCall("pval", gen.NBool(true))) },
+		func() *gen.Node { return gen.NBin("||", gen.NBool(true), gen.NCall("pval", gen.NInt(1))) },
+		func() *gen.Node { return gen.NBin("&&", gen.NBool(false), gen.NCall("pval", gen.NInt(1))) },
+		func() *gen.Node { return gen.NBin("&&", gen.NParen(gen.NBin("&&", gen.NBool(true), gen.NInt(2))), gen.NBool(true)) },
+		func() *gen.Node { return gen.NBin("<", gen.NInt(big), gen.NInt(big+1)) },
+		func() *gen.Node { return gen.NBin("<=", gen.NInt(big+1), gen.NInt(big)) },
+		func() *gen.Node { return gen.NBin(">", id("b1"), id("b0")) },
+		func() *gen.Node { return gen.NBin(">=", id("b0"), id("b1")) },
+		func() *gen.Node { return gen.NBin("==", gen.NInt(big+1), gen.NFloat(float64(big))) },
+		func() *gen.Node { return gen.NBin("<", gen.NInt(big+1), gen.NFloat(float64(big))) },
+		func() *gen.Node { return gen.NBin("<", gen.NInt(1600000000000000000), gen.NInt(1600000000000000001)) },
+		func() *gen.Node { return gen.NBin("<", gen.NStr("a"), gen.NStr("b")) },
+		func() *gen.Node { return gen.NBin("<", gen.NNil(), gen.NInt(1)) },
+		func() *gen.Node { return gen.NBin("==", gen.NNil(), gen.NBool(false)) },
+		func() *gen.Node { return gen.NUnary("!", gen.NInt(1)) },
+		func() *gen.Node { return gen.NBin("in", gen.NInt(1), gen.NList(gen.NInt(1))) },
+	}
+	n := 0
+	for ei, mk := range exprs {
+		for pos := 0; pos < 9; pos++ {
+			pre := []*gen.Node{gen.NSet("n", gen.NInt(3)), gen.NSet("ok", gen.NBool(true)), gen.NSet("b0", gen.NInt(big)), gen.NSet("b1", gen.NInt(big+1)), gen.NSet("cnt", gen.NInt(0))}
+			then := []*gen.Node{gen.NCall("probe", gen.NStr("then"))}
+			els := []*gen.Node{gen.NCall("probe", gen.NStr("else"))}
+			var st []*gen.Node
+			switch pos {
+			case 0:
+				st = []*gen.Node{gen.NSet("r", mk()), gen.NCall("probe", gen.NStr("r"), id("r"))}
+			case 1:
+				st = []*gen.Node{gen.NIf([]*gen.Node{mk()}, [][]*gen.Node{then}, els, true)}
+			case 2:
+				st = []*gen.Node{gen.NIf([]*gen.Node{gen.NBool(false), mk()}, [][]*gen.Node{{gen.NCall("probe", gen.NStr("first"))}, then}, els, true)}
+			case 3:
+				st = []*gen.Node{gen.NIf([]*gen.Node{gen.NParen(mk())}, [][]*gen.Node{then}, els, true)}
+			case 4: // a for condition: the body runs while it holds (at most three passes)
+				st = []*gen.Node{gen.NFor(nil, gen.NBin("&&", gen.NBin("<", id("cnt"), gen.NInt(3)), gen.NParen(mk())), nil, []*gen.Node{gen.NSet("cnt", gen.NBin("+", id("cnt"), gen.NInt(1))), gen.NCall("probe", gen.NStr("pass"), id("cnt"))})}
+			case 5: // the condition itself, un-parenthesised; the body ends the loop
+				st = []*gen.Node{gen.NFor(nil, mk(), nil, []*gen.Node{gen.NCall("probe", gen.NStr("pass")), gen.NBreak()}), gen.NCall("probe", gen.NStr("after-loop"))}
+			case 6:
+				st = []*gen.Node{gen.NCall("probe", gen.NStr("arg"), mk(), gen.NList(mk()))}
+			case 7:
+				st = []*gen.Node{gen.NSet("m", gen.NMap(gen.NStr("k"), mk())), gen.NCall("add_key", id("out"), mk()), gen.NCall("probe", gen.NStr("m"), id("m"))}
+			default:
+				st = []*gen.Node{gen.NFor(gen.NSet("i", gen.NInt(0)), gen.NBin("<", id("i"), gen.NInt(2)), gen.NSet("i", gen.NBin("+", id("i"), gen.NInt(1))), []*gen.Node{gen.NIf([]*gen.Node{mk()}, [][]*gen.Node{then}, els, true)})}
+			}
+			judge(t, "positions", sem.NewCase(gen.FixAll(append(pre, st...))), fmt.Sprintf("exprpos/%d/%d", ei, pos), "expression-positions")
+			n++
+		}
+	}
+	evid.Exhaustive("operator expression x evaluation position", n)
+}
+
+// TestStringMembership: `needle in haystack` on strings is byte-wise containment - also for needles that are a lone
+// byte of a character (a byte-wise slice), U+FFFD, parts of characters and the characters a for-in delivers.
+func TestStringMembership(t *testing.T) {
+	strs := []string{"", "a", "abc", "caf\xc3\xa9", "\xff", "\xfe", "a\xfeb", "x\xfe", "\xc3", "\xa9", "\xef\xbf\xbd", "a\xef\xbf\xbdb", "\xf0\x9f\x98\x80", "\xf0\x9f", "\x98\x80", "\x00", "a\x00b", "é", "e", "\xe6\x97\xa5", "\xe6"}
+	n := 0
+	for _, needle := range strs {
+		for _, hay := range strs {
+			prog := []*gen.Node{gen.NCall("probe", gen.NStr("in"), gen.NBin("in", gen.NStr(needle), gen.NStr(hay))),
+				gen.NSet("nd", gen.NStr(needle)), gen.NSet("hs", gen.NStr(hay)), gen.NCall("probe", gen.NStr("in-vars"), gen.NBin("in", id("nd"), id("hs")))}
+			if len(hay) > 0 {
+				// the first byte of the haystack, sliced off byte-wise, is in the haystack
+				prog = append(prog, gen.NCall("probe", gen.NStr("first-byte"), gen.NBin("in", gen.NSlice(id("hs"), gen.NInt(0), gen.NInt(1), nil, false), id("hs")), gen.NBin("in", gen.NSlice(id("hs"), gen.NInt(0), gen.NInt(1), nil, false), gen.NStr(needle))))
+			}
+			judge(t, "string-in", sem.NewCase(gen.FixAll(prog)), fmt.Sprintf("strin/%x/%x", needle, hay), "string-membership")
+			n++
+		}
+		var body []*gen.Node
+		for hi, hay := range strs {
+			body = append(body, gen.NCall("probe", gen.NStr(fmt.Sprint("c-in-", hi)), id("c"), gen.NBin("in", id("c"), gen.NStr(hay))))
+		}
+		if needle != "" {
+			judge(t, "string-in", sem.NewCase(gen.FixAll([]*gen.Node{gen.NForIn("c", gen.NStr(needle), body)})), fmt.Sprintf("strin-forin/%x", needle), "string-membership")
+			n++
+		}
+	}
+	evid.Exhaustive("needle x haystack over valid, invalid and partial encodings; byte slices and for-in characters as needles", n)
+}
+
 func genCase(t *rapid.T) (*sem.Case, *sgen.G) {
 	g := sgen.New(t)
 	g.Probes = true
